@@ -20,6 +20,35 @@ fn rich_state(w: &World) -> Sentence<'static, '_> {
 
 /// kind 0..3: raw / tokenized / partial
 pub fn totality_case(w: &World, kind: usize, x: &str) -> Vec<(String, String)> {
+    totality_case_priors(w, kind, x, 0..2)
+}
+
+/// The sentence an update is applied to: 0 the default sentence, 1 a small predicted and tagged one, 2.. LARGE ones
+/// (buffers of several KiB: 5000 one-byte characters; 2000 three-byte characters; 300 characters with 20 tag
+/// slots each; a 1500-token tagged line; a 3000-character predicted and tagged sentence).
+fn prior_state(w: &World, prior: usize) -> Sentence<'static, '_> {
+    match prior {
+        0 => Sentence::default(),
+        1 => rich_state(w),
+        2 => Sentence::from_raw("x".repeat(5000)).expect("prior 2"),
+        3 => Sentence::from_raw("あ".repeat(2000)).expect("prior 3"),
+        4 => {
+            let mut s = Sentence::from_raw("ab".repeat(150)).expect("prior 4");
+            s.reset_tags(20);
+            s.tags_mut().iter_mut().for_each(|t| *t = Some("T".into()));
+            s
+        }
+        5 => Sentence::from_tokenized(&"あ/t/u ".repeat(1500).trim_end().to_string()).expect("prior 5"),
+        _ => {
+            let mut s = Sentence::from_raw("ab あ".repeat(750)).expect("prior 6");
+            w.preds[1].p.predict(&mut s);
+            s.fill_tags();
+            s
+        }
+    }
+}
+
+pub fn totality_case_priors(w: &World, kind: usize, x: &str, priors: std::ops::Range<usize>) -> Vec<(String, String)> {
     let mut out = vec![];
     let names = ["raw", "tokenized", "partial_annotation"];
     let cons = guard(|| match kind {
@@ -45,9 +74,9 @@ pub fn totality_case(w: &World, kind: usize, x: &str) -> Vec<(String, String)> {
             out.push((format!("shape-boundaries from_{}", names[kind]), format!("from_{}({x:?}): {} boundaries / {} scores for {n} characters", names[kind], f.boundaries.len(), f.scores.len())));
         }
     }
-    for prior in 0..2 {
+    for prior in priors {
         let r = guard(|| {
-            let mut s = if prior == 0 { Sentence::default() } else { rich_state(w) };
+            let mut s = prior_state(w, prior);
             let ok = match kind {
                 0 => s.update_raw(x.to_string()).is_ok(),
                 1 => s.update_tokenized(x).is_ok(),
@@ -83,7 +112,9 @@ pub fn replay(case: &Value) -> Option<(String, String)> {
     let kind = case["kind"].as_u64()? as usize;
     let x = case["x"].as_str()?;
     let want = case["sig"].as_str()?;
-    totality_case(&w, kind, x).into_iter().find(|(s, _)| s == want)
+    let lo = case["prior_lo"].as_u64().unwrap_or(0) as usize;
+    let hi = case["prior_hi"].as_u64().unwrap_or(2) as usize;
+    totality_case_priors(&w, kind, x, lo..hi).into_iter().find(|(s, _)| s == want)
 }
 
 pub fn run(tier: Tier) -> ! {
@@ -179,6 +210,23 @@ pub fn run(tier: Tier) -> ! {
                 for (k, what) in totality_case(&w, kind, x) {
                     let what: String = what.chars().take(300).collect();
                     chk.violation(k.clone(), what, json!({"mode": "totality", "kind": kind, "x": x, "sig": k}));
+                }
+            }
+        });
+    }
+    // LARGE prior states: every string up to 2 characters over the hostile alphabet (accepted and rejected ones)
+    // applied by every update_* to sentences that hold several KiB of text / tags / scores
+    {
+        let small = crate::gen::strings(&SIGMA, 0, 2);
+        chk.set("totality_large_prior_strings", json!(small.len()));
+        small.par_iter().for_each(|x| {
+            let x: String = x.iter().collect();
+            for kind in 0..3 {
+                chk.eval(5);
+                chk.nontrivial(5);
+                for (k, what) in totality_case_priors(&w, kind, &x, 2..7) {
+                    let what: String = what.chars().take(300).collect();
+                    chk.violation(k.clone(), what, json!({"mode": "totality", "kind": kind, "x": x, "sig": k, "prior_lo": 2, "prior_hi": 7}));
                 }
             }
         });
